@@ -42,6 +42,15 @@ CLAIMS["C11"] = dict(text="bounded symbolic model checking: for source circuits 
                     "for gaussian_merge every hybrid circuit up to the length bound is compared with non-Gaussian operations interpreted as "
                     "opaque symbolic affine-symplectic markers, so equality for all marker values is exactly 'every non-Gaussian operation "
                     "kept its place'; any exception other than CircuitError is a violation", design_ref="5/C11")
+CLAIMS["C06"] = dict(text="bounded symbolic model checking with the random generator replaced by recording stubs that return symbolic outcomes: "
+                    "(1) the parameters handed to the sampler equal the Born distribution of an ARBITRARY symbolic state (Gaussian homodyne at any "
+                    "angle and symbolic eps, heterodyne; Fock number measurement of every ordered subset: the diagonal of the real partial trace in "
+                    "ascending mode order); (2) the post-measurement state equals the reference conditional (Schur complement) update / projected "
+                    "renormalised state for every outcome; (3) Gaussian and single-peak bosonic backends give the same conditional state for the same "
+                    "post-selected heterodyne outcome; (4) through the real LocalEngine, one row per shot, columns in ascending mode order and every "
+                    "register holding its own outcome for every order of measurement commands", design_ref="5/C06",
+                    note=NOTE + "; outside the claim: acceptance statistics of the bosonic rejection sampler, the discretised Fock homodyne sampler, "
+                    "hafnian/torontonian samplers of thewalrus, the exactness of finite-eps homodyne (both Gaussian-type backends approximate it differently)")
 NA_DEFAULT = "check not built yet in this session (plan: DESIGN.md section 5)"
 NA = {}
 
